@@ -3,7 +3,7 @@ from vlib import core, text_oracles
 
 # PrintSpec: a line reaches the printer as parts no longer than a block; what is written is the parts' concatenation whatever the partition (C13_parts_bytes)
 # and whatever the part sizes relative to the 2056-byte buffer (C19_printed_eq_written)
-MODS = ['S4V.Props.C12', 'S4V.Props.LinesSpec', 'S4V.Props.CacheSpec', 'S4V.Props.GateSpec', 'S4V.Props.BoxptrsSpec', 'S4V.Props.PrintSpec', 'S4V.Props.PatSelSpec', 'S4V.Props.FixedWalkManySpec', 'S4V.Props.LineSkelSpec', 'S4V.Props.GateSkelSpec']
+MODS = ['S4V.Props.C12', 'S4V.Props.LinesSpec', 'S4V.Props.CacheSpec', 'S4V.Props.GateSpec', 'S4V.Props.BoxptrsSpec', 'S4V.Props.PrintSpec', 'S4V.Props.PatSelSpec', 'S4V.Props.FixedWalkManySpec', 'S4V.Props.LineSkelSpec', 'S4V.Props.GateSkelSpec', 'S4V.Props.LineSkel2Spec']
 LEVEL_NOTE = ("Proved for every block size >= 1, every byte string and offset: block arithmetic (translated from blockreader.rs), "
               "find_line's block walk = the line containing the offset (bounds, bytes, in-bounds contiguous parts), lines tile the file; "
               "the message layer of the model does not see blocks. The hand model of find_line/find_line_in_block is tied to the code by "
@@ -54,7 +54,7 @@ def oracle(ctx):
 
 
 def check(ctx):
-    return core.standard_check(ctx, ['Blocks', 'Consts', 'Filter', 'DtStart', 'Print', 'PatSel', 'Keys', 'Stream', 'Fixed', 'LayoutDetect', 'FixedWalk', 'Lines', 'LinesMutants', 'Gate', 'GateMutants'], MODS, [('patsel', 500, 6000), ('line', 2500, 40000), ('lskel', 3000, 20000), ('gskel', 150, 2000), ('gate', 150, 2000), ('proc', 400, 6000), ('boxp', 300, 4000), ('prt', 600, 8000), ('fwalk', 1500, 15000)], oracle, LEVEL_NOTE, ASSUME)
+    return core.standard_check(ctx, ['Blocks', 'Consts', 'Filter', 'DtStart', 'Print', 'PatSel', 'Keys', 'Stream', 'Fixed', 'LayoutDetect', 'FixedWalk', 'Lines', 'LinesMutants', 'Lines2', 'Lines2Mutants', 'Gate', 'GateMutants'], MODS, [('patsel', 500, 6000), ('line', 2500, 40000), ('lskel', 3000, 20000), ('gskel', 150, 2000), ('gate', 150, 2000), ('proc', 400, 6000), ('boxp', 300, 4000), ('prt', 600, 8000), ('fwalk', 1500, 15000)], oracle, LEVEL_NOTE, ASSUME)
 
 
 def replay(ctx, data):
